@@ -91,7 +91,10 @@ def check_sig(ctx, case, enum=False, cache=None):
                 cache[key] = sk
         if entry == "data":
             digest = hf(payload).digest()
-            a = sk.sign_deterministic(payload, hashfunc=hf, sigencode=SU.rs_tuple, extra_entropy=extra)
+            if (dd + len(payload)) % 2:
+                a = sk.sign_deterministic(payload, hf, SU.rs_tuple, extra)        # documented positional order
+            else:
+                a = sk.sign_deterministic(payload, hashfunc=hf, sigencode=SU.rs_tuple, extra_entropy=extra)
             b = sk.sign_deterministic(payload, sigencode=SU.rs_tuple, extra_entropy=extra)  # default hash
             at = True
         else:
@@ -144,6 +147,25 @@ def _boundary_digest(n, delta, extra_bytes=0):
     nbytes = (qlen + 7) // 8
     data = (v << (8 * nbytes - qlen)).to_bytes(nbytes, "big")
     return data + b"\xa5" * extra_bytes
+
+
+def k_history(ctx):
+    """generate_k is a pure function: interleaving calls that differ only in the hash function (same digest
+    size) or only in the retry index must not influence each other"""
+    groups = [["sha256", "sha3_256"], ["sha512", "blake2b"], ["sha1", "sha1"], ["short4", "short4"]]
+    for n in (gen.named("NIST256p").n, gen.named("SECP160r1").n, 65521, 251):
+        for x in (1, n // 3, n - 1):
+            for grp in groups:
+                data = gen.HASHES[grp[0]](b"history").digest()
+                for extra in (b"", b"\x01\x02"):
+                    seq = []
+                    for r in range(0, 4):
+                        seq.append((grp[r % 2], r))
+                    seq += [(grp[0], 0), (grp[1], 0), (grp[1], 3), (grp[0], 2), (grp[0], 3)]
+                    for hname, r in seq:
+                        check_k(ctx, {"kind": "k", "n": n, "d": x, "hash": hname, "data": data.hex(),
+                                      "extra": extra.hex(), "retry": r})
+    ctx.sample({"kind": "k-history", "note": "retry i with one hash followed by retry i+1 with another hash of the same size"})
 
 
 def st_k():
@@ -202,6 +224,7 @@ def units(tier, seed):
         out.append(("small-orders", {"lo": 2, "hi": top, "shard": i, "nshards": 4}))
     for i in range(8):
         out.append(("k-random", {"examples": 4000 if q else 60000, "label": "k%d" % i}))
+    out.append(("k-history", {}))
     out.append(("toy-sigs", {"curve": "t13", "msgs": 40 if q else 400}))
     out.append(("toy-sigs", {"curve": "t23a", "msgs": 25 if q else 250}))
     out.append(("toy-sigs", {"curve": "t23b", "msgs": 25 if q else 250}))
@@ -231,6 +254,8 @@ def run_unit(ctx, name, **kw):
                                   "extra": "" if (n + j) % 3 else "ab", "retry": (n + j) % 4 if j in (2, 3) else 0}, enum=True)
         ctx.sample({"kind": "k", "n": kw["lo"] + kw["shard"], "note": "all n in range, d in {1,n//2,n-1}"})
         ctx.exhausted("generate_k: every order in [2,%d] with boundary d" % kw["hi"])
+    elif name == "k-history":
+        k_history(ctx)
     elif name == "k-random":
         def body(c, case):
             check_k(c, case)
